@@ -668,9 +668,10 @@ def _next_day(mo, dy):
 
 
 def run(chk):
-    chk.proof(MODULE, THEOREMS)
+    from props import epwheader
+    chk.proof(MODULE, THEOREMS + epwheader.SITE_THEOREMS, extra_modules=[epwheader.MODULE])
     if chk.tier == 'thorough':
-        chk.leanchecker([MODULE])
+        chk.leanchecker([MODULE, epwheader.MODULE])
     chk.notes.append(NOAA_TEXT)
     sites = [epw_header(p) for p in epw_files()]
     chk.notes.append('shipped weather files: ' + ', '.join(epw_files()))
@@ -785,6 +786,8 @@ def run(chk):
                '> 1e-9 (i.e. is not explained by the known finding)',
                mismatches=unexplained,
                branches={'differs_from_noaa': differs, 'unexplained': unexplained})
+    # the site itself: LOCATION cells 6..8 (and the ground line) as read by the real _read_epw vs the model
+    epwheader.run_header(chk, 'site')
     chk.assumptions.append('solarangles is exercised through fracexec (exact rationals, stub trigonometry); '
                            'double rounding, libm and math.acos domain errors are outside the model')
     chk.assumptions.append('simTime.secDay is an integer number of seconds (dt is an integer); EPW longitude is '
